@@ -42,11 +42,11 @@ def cs(s):
 
 
 # ------------------------------------------------------------------ scenarios
-def scenario(cid, lose, mode, phase, endpoints, closing=None, mid_ms=0, bound_ms=None, drop=0):
+def scenario(cid, lose, mode, phase, endpoints, closing=None, mid_ms=0, bound_ms=None, drop=0, ghost="", extra=0):
     n = sum(len(e["listeners"]) for e in endpoints)
     return {"id": cid, "lose": lose, "mode": mode, "phase": phase, "gossip_ms": GOSSIP_MS, "grace_ms": GRACE_MS,
             "delay_ms": DELAY_MS, "endpoints": endpoints, "closing": closing or (["shutdown", "ctx"] * n)[:n],
-            "bound_ms": bound_ms or BOUND_MS, "mid_ms": mid_ms, "drop_reconnects": drop}
+            "bound_ms": bound_ms or BOUND_MS, "mid_ms": mid_ms, "drop_reconnects": drop, "ghost": ghost, "extra": extra}
 
 
 def corpus():
@@ -69,6 +69,15 @@ def builtin_corpus():
                  [{"id": "ea", "listeners": [1, 2]}, {"id": "eb", "listeners": [1, 1]}], drop=2),
         scenario("graceful-inflight", 2, "graceful", "inflight",
                  [{"id": "ea", "listeners": [2, 0]}, {"id": "eb", "listeners": [2]}]),
+        # the leaver still remembers an earlier departure (seeded change C18-1: Leave stopping at the first departed node)
+        scenario("graceful-after-left", 1, "graceful", "connected", [{"id": "ea", "listeners": [1, 0]}], ghost="left"),
+        scenario("graceful-after-crash", 0, "graceful", "connected", [{"id": "ea", "listeners": [0, 2]}], ghost="crashed"),
+        scenario("graceful-after-left-2", 2, "graceful", "idle", [{"id": "ea", "listeners": [0]}], ghost="left"),
+        # the node dies right after telling the first survivor: the other one has to hear of the departure through gossip
+        # (seeded change C18-2: Delta() leaving out members that have left)
+        scenario("partial-1", 1, "mid", "connected", [{"id": "ea", "listeners": [1, 2]}], mid_ms=-1),
+        # six nodes: the leaver tells four of its five peers, the fifth hears of it through gossip
+        scenario("wide-graceful", 1, "graceful", "connected", [{"id": "ea", "listeners": [1, 0]}], extra=3),
     ]
 
 
@@ -89,8 +98,10 @@ def gen_scenario(rng, cid, lose=None, mode=None, phase=None):
         eps[0]["listeners"][0] = lose
     n = sum(len(e["listeners"]) for e in eps)
     closing = [rng.choice(["shutdown", "ctx"]) for _ in range(n)]
-    return scenario(cid, lose, mode, phase, eps, closing, mid_ms=rng.choice([0, 1, 3, 8]) if mode == "mid" else 0,
-                    drop=rng.choice([0, 0, 1, 3]))
+    # an earlier departure (a fourth node that left / crashed before) is still remembered by everybody in a third of
+    # the scenarios: the leaver's walk over its known nodes meets it, the survivors' tables hold it
+    return scenario(cid, lose, mode, phase, eps, closing, mid_ms=rng.choice([0, 1, 3, 8, -1, -1, -1]) if mode == "mid" else 0,
+                    drop=rng.choice([0, 0, 1, 3]), ghost=rng.choice(["", "", "left", "crashed"]))
 
 
 def matrix(rng):
@@ -162,9 +173,20 @@ def monitor(sc, o):
                 return {"sig": "listener-open", "why": "after Shutdown the %s port of %s still accepts connections" % (name, lost)}
         # the peers it notified (the live ones; at most 4 - here at most 2) stop routing to it at once
         notified = [p for p in L["live_before"] if p in L["live_after"]]
+        if len(notified) > 4:
+            # Leave stops after the 4th acknowledgement: any four of the live peers
+            told = [s["node"] for s in o["survivors"] if s["instant"] == "left"]
+            if len(told) < 4:
+                return {"sig": "notified-not-left", "hard": o["loss_ms"] < 1500,
+                        "why": "the instant Shutdown of %s returned (after %d ms) only %r of its %d live peers had it as left (Leave notifies 4)" % (lost, o["loss_ms"], told, len(notified))}
+            notified = told
         for s in o["survivors"]:
             if s["node"] in notified and s["instant"] != "left":
-                return {"sig": "notified-not-left", "why": "the instant Shutdown of %s returned, notified peer %s had it as %r, not left" % (lost, s["node"], s["instant"])}
+                # the leave stream is synchronous (acknowledged after ApplyDelta, the status is set in the watcher callback):
+                # when Shutdown returned quickly - no dial or stream timeout can have happened - the recorded state is hard
+                # evidence, even if another run of the same scenario (another shuffle of the leaver's peers) does not show it
+                return {"sig": "notified-not-left", "hard": o["loss_ms"] < 1500,
+                        "why": "the instant Shutdown of %s returned (after %d ms), live peer %s had it as %r, not left" % (lost, o["loss_ms"], s["node"], s["instant"])}
             for ep, ids in s["instant_lookup"].items():
                 if s["node"] in notified and lost in ids:
                     return {"sig": "routes-to-left", "why": "after the leave of %s, LookupEndpoint(%s) at notified peer %s returned it" % (lost, ep, s["node"])}
@@ -190,6 +212,16 @@ def monitor(sc, o):
             bad = [i for i in ids if i and (i not in surv or i == s["node"])]
             if bad:
                 return {"sig": "lookup-bad-node", "why": "LookupEndpoint(%s) at %s returned %r" % (ep, s["node"], bad)}
+    # --- "the rest follow through gossip": once one survivor knows that the node LEFT, the others end up there too
+    finals = {}
+    for s in o["survivors"]:
+        post = [n for n in s["post_routing"] if n["id"] == lost]
+        finals[s["node"]] = post[0]["status"] if post else "absent"
+    told = [n for n, st in finals.items() if st == "left"]
+    rest = [n for n, st in finals.items() if st not in ("left", "absent")]
+    if told and rest:
+        return {"sig": "rest-not-following", "why": "%s hold(s) the departed %s as left, but %s ended with %r: the departure did not follow through gossip"
+                                                      % (told, lost, rest[0], finals[rest[0]])}
     # --- listeners reconnect to a survivor
     want = {}
     for l in o["listeners"]:
@@ -279,7 +311,9 @@ def schedule_of(o):
             before.append(ep)
         else:
             after.append(ep)
-    live = "(%s)" % c_strs(L["live_before"])
+    # the shuffle of Leave is not observable: the peers that had the node as left the instant Shutdown returned come first
+    told_first = [s["node"] for s in o["survivors"] if s["instant"] == "left"]
+    live = "(%s)" % c_strs([p for p in L["live_before"] if p in told_first] + [p for p in L["live_before"] if p not in told_first])
     sched = ["StNotReady", "StUpstream"] + ["StExit %s" % cs(e) for e in before] + ["StProxy", "StLeave %s" % live] \
         + ["StExit %s" % cs(e) for e in after] + ["StGossipClose", "StAdmin"]
     return conns, sched, live
@@ -340,7 +374,7 @@ def cases_of(sc, o):
 
 
 # monitor signatures whose evidence is a recorded state or answer, not a missed deadline
-HARD_EVIDENCE = {"wrong-upstream", "listener-gave-up", "still-advertising", "no-left-marker", "listener-open", "routes-to-lost",
+HARD_EVIDENCE = {"rest-not-following", "wrong-upstream", "listener-gave-up", "still-advertising", "no-left-marker", "listener-open", "routes-to-lost",
                  "routes-to-left", "left-not-final", "lookup-bad-node", "close-outcome"}
 
 CODE_NAMES = {1: "accept-outcome", 2: "illegal-schedule", 3: "leaver-holds-upstreams", 4: "left-marker", 5: "listener-open",
@@ -492,7 +526,7 @@ def run(ctx):
         sc = dict(sc, bound_ms=RERUN_BOUND_MS)
         again = run_scenarios(binary, wd, [dict(sc, id=sc["id"] + "-again")], tag="again")[0]
         f2 = monitor(sc, again)
-        if f2 is None and f["sig"] in HARD_EVIDENCE:
+        if f2 is None and (f["sig"] in HARD_EVIDENCE or f.get("hard")):
             # the recorded state is the evidence (not a deadline that was missed): an intermittent failure (race) is still a failure
             f2, again = dict(f, why=f["why"] + " [observed in 1 of 2 runs of this scenario: intermittent]"), o
         if f2 is None:
